@@ -26,12 +26,12 @@ Print Assumptions C11_partial_failed_cc_item_requeued.
 
 (* progress step: a servable node is served by one successful run of its work item *)
 Theorem C11_partial_servable_node_is_served :
-  forall po lab canp apisame held m node nr outs ps,
+  forall po lab svcs canp apisame held m node nr outs ps,
   MapInv m -> KU m -> n_cidrs node = [] -> n_deleting node = false -> n_cidrs nr = [] ->
   (forall cs, canp cs = true) ->
   ordered_matching po lab m (n_labels node) true = Ok ps ->
   (exists p c, In p ps /\ get_entry m p = Some c /\ ~ no_room m held c) ->
   exists m' cs, cs <> [] /\
-    sync_node po lab canp apisame held m (Some node) (Some nr) (POk :: outs) = (m', Ok tt, [FxPatch (n_name node) cs POk]).
+    sync_node po lab svcs canp apisame held m (Some node) (Some nr) (POk :: outs) = (m', Ok tt, [FxPatch (n_name node) cs POk]).
 Proof. exact servable_node_is_served. Qed.
 Print Assumptions C11_partial_servable_node_is_served.
